@@ -162,3 +162,18 @@ pub fn bufwriter_flushed<W: Write>(mut w: W) -> io::Result<()> {
     }
     w.flush()
 }
+
+// ---- short reads (IO-EXACT) ----
+
+pub fn short_read_discarded<R: Read>(mut r: R) -> io::Result<Vec<u8>> {
+    let mut b = vec![0u8; 16];
+    r.read(&mut b)?;
+    Ok(b)
+}
+
+pub fn short_read_counted<R: Read>(mut r: R) -> io::Result<Vec<u8>> {
+    let mut b = vec![0u8; 16];
+    let n = r.read(&mut b)?;
+    b.truncate(n);
+    Ok(b)
+}
